@@ -26,7 +26,7 @@ const SPEC: Spec = Spec {
         "std DefaultHasher (SipHash with fixed keys) stands for 'hash identically'",
         "quickcheck Gen::new (entropy-seeded) is not called; Gen::from_size_and_seed is enumerated instead",
     ],
-    bounds_quick: "BigInt and BigUint models: depth 3 from all initial constructions (13 values x 5 construction ways (incl. small and large slack capacity) + inconsistent sign/magnitude requests), ~75 actions per state; generators: arbitrary over all byte strings {00,01,ff}^<=8, quickcheck (size<=8, seed<1024), shrink of the pool, serde_json sequences {0,1,2^32-1}^<=6 x signs, rand word streams {0,1,2^31,2^32-1}^<=3 x bit sizes/bounds; constructors in 13 radices x zero paddings up to 130 digits; G-results: (Dense(S5,3)+16 longer)^2 x 25 BigUint operator forms and 57^2 signed values x 27 BigInt forms, every result observed",
+    bounds_quick: "BigInt and BigUint models: depth 3 from all initial constructions (13 values x 5 construction ways (incl. small and large slack capacity) + inconsistent sign/magnitude requests), ~75 actions per state; generators: arbitrary over all byte strings {00,01,ff}^<=8, quickcheck (size<=8, seed<1024), shrink of the pool, serde_json sequences {0,1,2^32-1}^<=6 x signs, rand word streams {0,1,2^31,2^32-1}^<=3 x bit sizes/bounds; constructors in 13 radices x zero paddings up to 130 digits; G-results: (Dense(S5,3)+16 longer)^2 x 41 BigUint operations (operators, gcd/lcm, modpow, modinv, pow, roots, shifts, multiple-of) and 57^2 signed values x 47 BigInt operations, every result observed",
     bounds_thorough: "BigInt and BigUint models: depth 5 (digit cap 20; ~4.6*10^7 states, ~8 min, 4.3 GB); generators: arbitrary over {00,01,ff}^<=10, quickcheck (size<=8, seed<4096), serde_json sequences ^<=8, rand word streams ^<=5",
     hang_secs: 120,
     probes: None,
@@ -1455,6 +1455,22 @@ fn run_results(ctx: &mut Ctx) {
         ("a^&b", |a, b| a.clone() ^ b),
         ("gcd", |a, b| num_integer::Integer::gcd(a, b)),
         ("lcm", |a, b| num_integer::Integer::lcm(a, b)),
+        ("modpow(a,0,b)", |a, b| a.modpow(&BigUint::ZERO, b)),
+        ("modpow(a,1,b)", |a, b| a.modpow(&BigUint::from(1u32), b)),
+        ("modpow(a,b&7,b)", |a, b| a.modpow(&(b & BigUint::from(7u32)), b)),
+        ("modpow(b,a,b|1)", |a, b| b.modpow(&(a & BigUint::from(0xffffu32)), &(b | BigUint::from(1u32)))),
+        ("modinv", |a, b| a.modinv(b).unwrap_or_default()),
+        ("pow2+b", |a, b| a.pow(2) + b),
+        ("pow3", |a, _| a.pow(3)),
+        ("sqrt(a*b)", |a, b| (a * b).sqrt()),
+        ("nth_root3(a<<b%64)", |a, b| (a << (b.bits() % 64)).nth_root(3)),
+        ("a<<(bits b)", |a, b| a << b.bits()),
+        ("a>>(bits b)", |a, b| a >> b.bits()),
+        ("a>>64", |a, _| a >> 64u32),
+        ("div_floor", |a, b| num_integer::Integer::div_floor(a, b)),
+        ("next_multiple_of", |a, b| num_integer::Integer::next_multiple_of(a, b)),
+        ("prev_multiple_of", |a, b| num_integer::Integer::prev_multiple_of(a, b)),
+        ("a*b-b*a", |a, b| a * b - b * a),
     ];
     for (i, a) in us.iter().enumerate() {
         if !ctx.mine(i as u64) {
@@ -1517,6 +1533,24 @@ fn run_results(ctx: &mut Ctx) {
         ("a^&b", |a, b| a.clone() ^ b),
         ("gcd", |a, b| num_integer::Integer::gcd(a, b)),
         ("lcm", |a, b| num_integer::Integer::lcm(a, b)),
+        ("modpow(a,0,b)", |a, b| a.modpow(&BigInt::ZERO, b)),
+        ("modpow(a,|b|&7,b)", |a, b| a.modpow(&BigInt::from(b.magnitude() & BigUint::from(7u32)), b)),
+        ("modinv", |a, b| a.modinv(b).unwrap_or_default()),
+        ("pow2", |a, _| a.pow(2)),
+        ("pow3-b", |a, b| a.pow(3) - b),
+        ("cbrt", |a, _| a.cbrt()),
+        ("a<<(bits b)", |a, b| a << b.bits()),
+        ("a>>(bits b)", |a, b| a >> b.bits()),
+        ("a>>64", |a, _| a >> 64u32),
+        ("-a", |a, _| -a),
+        ("!a", |a, _| !a),
+        ("abs", |a, _| num_traits::Signed::abs(a)),
+        ("abs_sub", |a, b| num_traits::Signed::abs_sub(a, b)),
+        ("div_ceil", |a, b| num_integer::Integer::div_ceil(a, b)),
+        ("div_euclid", |a, b| num_traits::Euclid::div_euclid(a, b)),
+        ("rem_euclid", |a, b| num_traits::Euclid::rem_euclid(a, b)),
+        ("next_multiple_of", |a, b| num_integer::Integer::next_multiple_of(a, b)),
+        ("extended_gcd.x", |a, b| num_integer::Integer::extended_gcd(a, b).x),
     ];
     for (i, a) in is.iter().enumerate() {
         if !ctx.mine((1 << 20) + i as u64) {
